@@ -86,8 +86,13 @@ class ControlServer(ABC, Generic[ClientT]):
         enters the session's `listen` loop.
         """
         session = ControlSession(self, reader, writer)
-        await session.client_handshake()
-        await session.listen()
+        try:
+            await session.client_handshake()
+            await session.listen()
+        finally:
+            # The session is over: close the connection, otherwise it stays
+            # open and keeps the stopped server from ever finishing.
+            writer.close()
 
     @abstractmethod
     async def _get_server_instance(
